@@ -1,6 +1,112 @@
 package main
 
-// handleMore: commands added later (encoder, dict histories, ...).
+import (
+	"fmt"
+	"sort"
+	"strconv"
+	"strings"
+
+	ogorek "github.com/kisielk/og-rek"
+)
+
+// dictCall runs one Dict API call; "unhashable" = panicked with the documented message.
+func dictCall(f func()) (status string) {
+	defer func() {
+		if r := recover(); r != nil {
+			if s, ok := r.(string); ok && strings.HasPrefix(s, "unhashable type:") {
+				status = "unhashable"
+			} else {
+				status = "PANIC(" + fmt.Sprint(r) + ")"
+			}
+		}
+	}()
+	f()
+	return "ok"
+}
+
+func dictEntries(d ogorek.Dict) string {
+	var items []string
+	n := 0
+	d.Iter()(func(k, v any) bool {
+		n++
+		items = append(items, dumpVal(k)+" "+dumpVal(v))
+		return true
+	})
+	sort.Strings(items)
+	return fmt.Sprintf("iter(%d)={ %s }", n, strings.Join(items, " ; "))
+}
+
+// runDict: a history of Dict operations on one fresh Dict.
+//   S k v   Set        D k   Del        G k   Get_        L  Len        I  Iter
+func runDict(args []string) string {
+	p := &parser{toks: args}
+	d := ogorek.NewDict()
+	var out []string
+	for p.pos < len(p.toks) {
+		op := p.next()
+		switch op {
+		case "S":
+			k := p.value()
+			v := p.value()
+			out = append(out, "S:"+dictCall(func() { d.Set(k, v) }))
+		case "D":
+			k := p.value()
+			out = append(out, "D:"+dictCall(func() { d.Del(k) }))
+		case "G":
+			k := p.value()
+			var v any
+			var ok bool
+			st := dictCall(func() { v, ok = d.Get_(k) })
+			if st != "ok" {
+				out = append(out, "G:"+st)
+			} else if ok {
+				out = append(out, "G:"+dumpVal(v))
+			} else {
+				out = append(out, "G:none")
+			}
+		case "L":
+			out = append(out, "L:"+strconv.Itoa(d.Len()))
+		case "I":
+			out = append(out, dictEntries(d))
+		default:
+			return "DRIVER-ERROR bad dict op " + op
+		}
+	}
+	return strings.Join(out, " | ")
+}
+
+// runLookup: in n fresh Dicts (fresh hash seeds), Set(a, 1) then Get_(b): how often found.
+func runLookup(args []string) string {
+	n, _ := strconv.Atoi(args[0])
+	p := &parser{toks: args[1:]}
+	a := p.value()
+	b := p.value()
+	found := 0
+	for i := 0; i < n; i++ {
+		d := ogorek.NewDict()
+		st := dictCall(func() { d.Set(a, int64(1)) })
+		if st != "ok" {
+			return "set:" + st
+		}
+		ok := false
+		st = dictCall(func() { _, ok = d.Get_(b) })
+		if st != "ok" {
+			return "get:" + st
+		}
+		if ok {
+			found++
+		}
+	}
+	return fmt.Sprintf("found=%d/%d", found, n)
+}
+
+// handleMore: commands beyond decoding.
 func handleMore(f []string) (string, bool) {
+	switch f[0] {
+	case "dict":
+		return runDict(f[1:]), true
+	case "lookup":
+		return runLookup(f[1:]), true
+	}
 	return "", false
 }
